@@ -393,6 +393,29 @@ def run(db, chk) -> None:
                     srows = step[1][1][1]
                     chk.ob("C12.R1-host-rule", "step rows = events whose name id belongs to the symbols starting with 'ProfilerStep'", srows[0] == "in" and srows[1] == T.col(DF, "name")
                            and "sym_index" in T.show(srows[2]), where, found=T.show(srows)[:200], accepted="name in ids(ProfilerStep*)")
+                elif any(isinstance(x, tuple) and len(x) == 3 and x[0] == "at" and x[1] == ("row",) for x in T.subterms(cases)):
+                    # the same decision with the step read column-wise (one vectorised pass per step: zip over the step frame's ts / end / number columns)
+                    walks = [e for e in r.events if e["kind"] == "row-walk"]
+                    rowat = lambda t_: ("at", ("row",), t_)
+                    DUR = T.col(DF, "dur")
+                    inside = T.and_(T.cmp("<=", rowat(TS), TS), T.cmp("<", TS, rowat(T.add(TS, DUR))))
+                    rows = dict(cases[1])
+                    chk.ob("C12.R1-host-rule", "inside test is the half-open span step.ts <= ts < step.ts + step.dur", inside in rows, where,
+                           found=[T.show(c)[:200] for c in rows], accepted=T.show(inside)[:200],
+                           why="a closed right end assigns an event starting exactly at the next step's start to the previous step; an open left end loses events starting with the step")
+                    got_in = rows.get(inside)
+                    num_ok = isinstance(got_in, tuple) and len(got_in) == 3 and got_in[0] == "at" and got_in[1] == ("row",) and "ProfilerStep" in T.show(got_in[2]) and \
+                        ("re.match" in T.show(got_in[2]) or "re('match'" in T.show(got_in[2]))
+                    chk.ob("C12.R1-host-rule", "value inside a step = the step's number (parsed from its ProfilerStep#<n> name)", num_ok if got_in is not None else False, where,
+                           found=T.show(got_in)[:160] if got_in else None, accepted="number of that step")
+                    other = [v for c, v in rows.items() if c != inside]
+                    chk.ob("C12.R1-host-rule", "default when no step contains the event is -1", other == [T.C(-1)], where, found=[T.show(v)[:60] for v in other], accepted="-1")
+                    okw = len(walks) == 1 and walks[0]["ctx"][0] == DF and isinstance(walks[0]["ctx"][1], tuple) and walks[0]["ctx"][1][0] == "in" and walks[0]["ctx"][1][1] == T.col(DF, "name") \
+                        and "sym_index" in T.show(walks[0]["ctx"][1][2]) and walks[0]["ctx"][2] is None
+                    chk.ob("C12.R1-host-rule", "step rows = events whose name id belongs to the symbols starting with 'ProfilerStep' (visited in row order: a later step wins where spans overlap)", okw if walks else None, where,
+                           found=[T._ctx(w_["ctx"])[:200] for w_ in walks], accepted="name in ids(ProfilerStep*)")
+                    chk.ob("C12.R1-host-rule", "the column-wise reads of a step are its ts, its ts + dur and its number", len(walks) == 1 and len(walks[0]["columns"]) == 3 and walks[0]["columns"][0] == TS
+                           and walks[0]["columns"][1] == T.add(TS, DUR), where, found=[T.show(c_)[:80] for w_ in walks for c_ in w_["columns"]], accepted=["ts", "ts + dur", "number"])
                 else:
                     chk.ob("C12.R1-host-rule", "host value iterates the step array", None, where, found=T.show(hv)[:200])
             # device rule
